@@ -102,8 +102,40 @@ def run_property(prop_id, tier='quick', seed=0, repo=None, config='default', qui
                             what=f'a construct inspected by the rules has an unexpected shape ({type(e).__name__}: {e}) at {where}', site=None,
                             detail=dict(traceback=tb[-1500:])))
 
-    known = [k for k in load_known() if k['property'] == prop_id and k.get('status') == 'known']
+    # rules of other properties that are genuine necessary conditions of this one as well (module attribute RELATED =
+    # {other property: [rule ids]}): the other module is evaluated on the same facts and the selected obligations are
+    # imported under the rule id '<other>.<rule>'
+    imported_from = {}
+    for other, rids in (getattr(mod, 'RELATED', {}) or {}).items():
+        try:
+            omod = importlib.import_module(f'props.{other}')
+            octx = Ctx(other, prog, tier, seed)
+            try:
+                omod.run(octx)
+            except FailClosed as e:
+                octx.rules.setdefault('ANCHOR', 'enforcing construct exists')
+                octx.obs.append(dict(rule='ANCHOR', key=re.sub(r'[^A-Za-z0-9_.:|<>= -]+', '_', str(e))[:120], ok=False,
+                                     what=f'enforcing construct not found: {e}', site=None, detail=None))
+            except Exception as e:
+                octx.rules.setdefault('ANCHOR', 'enforcing construct exists')
+                octx.obs.append(dict(rule='ANCHOR', key=f'rule evaluation aborted|{type(e).__name__}', ok=False,
+                                     what=f'rule evaluation of {other} aborted: {e}', site=None, detail=None))
+            for o in octx.obs:
+                if o['rule'] in rids or (o['rule'] == 'ANCHOR' and not o['ok']):
+                    nr = f'{other}.{o["rule"]}'
+                    ctx.rules[nr] = f'[shared with {other}] ' + octx.rules.get(o['rule'], '')
+                    o2 = dict(o, rule=nr)
+                    ctx.obs.append(o2)
+                    imported_from[(nr, o['key'])] = (other, o['rule'])
+        except Exception:
+            traceback.print_exc()
+    allk = load_known()
+    known = [k for k in allk if k['property'] == prop_id and k.get('status') == 'known']
     known_keys = {(k['rule'], k['key']): k for k in known}
+    for (nr, key), (other, orule) in imported_from.items():
+        for k in allk:
+            if k['property'] == other and k.get('status') == 'known' and k['rule'] == orule and k['key'] == key:
+                known_keys[(nr, key)] = k
     viols, knowns = [], []
     for o in ctx.obs:
         if o['ok']:
